@@ -438,6 +438,66 @@ def run(ctx):
     # mutex held - a chunk that shows up as free before the freeing thread holds the lock can be handed out and merged away
     # (rule shared with C08 D1)
     importlib.import_module("rules.c08").d1(db, rep, "D11-ALLOCATOR-LOCKED")
+    d12_borrowed_names(db, rep)
 
     if n6 < 6:
         raise AnalysisBroken("only %d free-then-null instances found" % n6)
+
+
+def d12_borrowed_names(db, rep, rule="D12-BORROWED-NAMES"):
+    """compiler->vars[] starts as a shallow copy of program->vars[]: the name strings of slots below
+    ORC_VAR_T1 + n_temp_vars belong to the PROGRAM and are freed by orc_program_free.  The compiler owns only the names it
+    allocates itself, for the temporaries it appends behind the program's (orc_compiler_new_temporary / _dup_temporary).  A
+    `free (compiler->vars[i].name)` whose index is not provably in that range frees a string the program still owns -
+    double free at orc_program_free, use after free in every later lookup by name.  (0, the constructors' failure value, is
+    ORC_VAR_D1.)"""
+    from flow import Facts
+    t1 = db.enum("ORC_VAR_T1")
+    n = 0
+    for f in db.tu("orccompiler").main_functions():
+        cp = [p_["name"] for p_ in f.params if "OrcCompiler" in (p_.get("ty") or "")]
+        loc = [v.name for v in f.walk() if v.k == "VarDecl" and "OrcCompiler" in (v.get("ty") or "")]
+        roots = set(cp + loc)
+        if not roots:
+            continue
+        fc = None
+        for c in f.calls("free"):
+            a = strip_casts(c.args()[0]) if c.args() else None
+            if a is None or a.k != "MemberExpr" or a.name != "name":
+                continue
+            base = strip_casts(a.c[0])
+            if base is None or base.k != "ArraySubscriptExpr" or not any((access_path(base.c[0]) or "") == "%s->vars" % r for r in roots):
+                continue
+            n += 1
+            rep.saw(f)
+            idx = base.c[1]
+
+            def terms(e):
+                e = strip_casts(e)
+                while e is not None and e.k == "ParenExpr":
+                    e = strip_casts(e.c[0])
+                if e is not None and e.k == "BinaryOperator" and e.op == "+":
+                    return terms(e.c[0]) + terms(e.c[1])
+                return [e]
+            ts = terms(idx)
+            const = sum(t.v for t in ts if t is not None and t.v is not None)
+            ok = const >= t1 and any((access_path(t) or "").endswith("n_temp_vars") for t in ts if t is not None)
+            if not ok:
+                fc = fc or Facts(f)
+                it = unparse(strip_casts(idx))
+                for cd in fc.conds(c):
+                    if cd[0] == "switch":
+                        continue
+                    e, pol = strip_casts(cd[0]), cd[1]
+                    if e.k == "BinaryOperator" and e.op in (">=", ">", "<", "<=") and unparse(strip_casts(e.c[0])) == it:
+                        lowered = (e.op in (">=", ">")) == bool(pol)
+                        rv = strip_casts(e.c[1]).v
+                        if lowered and rv is not None and rv >= t1 - (1 if e.op in (">", "<=") else 0):
+                            ok = True
+            rep.check(ok, rule, where(f), "%s@%s" % (f.name, c.line), "only names of the compiler's own temporaries are freed",
+                      "%s frees compiler->vars[%s].name (line %s) and the index is not provably a compiler temporary's (ORC_VAR_T1 + n_temp_vars + k): "
+                      "for any other slot - 0 = ORC_VAR_D1 is what the temporary constructors return when they refuse - the string belongs to the program, "
+                      "which frees it again in orc_program_free and reads it in every lookup by name" % (f.name, unparse(idx)[:60], c.line), line=c.line)
+    if n < 2:
+        raise AnalysisBroken("only %d frees of compiler variable names found" % n)
+    return n
